@@ -65,8 +65,11 @@ def check_value(v, obs, prefix='display', dirty_variant=0, stats=None, combos=FL
     """All 8 flag combinations (+ str() and format(v, '')) of one value."""
     styles = expected_styles(obs.cells)
     if with_default:
-        check_rendering(str(v) if obs.kind != 'A' else v.to_str(), obs.text, styles, None, prefix + '.str',
-                        dirty_variant, stats)
+        # str(): for an AnsiStr this is the frozen str payload, which must display like the object reports
+        check_rendering(str(v), obs.text, styles, None, prefix + '.str', dirty_variant, stats)
+        if obs.kind == 'A':
+            check_rendering('%s' % v, obs.text, styles, None, prefix + '.str_payload', dirty_variant, stats)
+            check_rendering(v.to_str(), obs.text, styles, None, prefix + '.to_str_default', dirty_variant, stats)
         check_rendering(format(v, ''), obs.text, styles, None, prefix + '.format', dirty_variant, stats)
     for (o, rs, re_) in combos:
         r = v.to_str(optimize=o, reset_start=rs, reset_end=re_)
